@@ -524,8 +524,18 @@ func (m *machine) userChangesMode(viaCommands bool) {
 		var err error
 		var gotMode string
 		var gotTime time.Time
+		// or the call without a time: the date recorded is today's (UTC), also
+		// when the file already names that mode with no or another date
+		plain := t.Bool(1, 3)
+		if plain {
+			asof = now
+		}
 		m.soloTask("user:setmode", func() {
-			err = telemetry.Default.SetModeAsOf(req, asof)
+			if plain {
+				err = telemetry.Default.SetMode(req)
+			} else {
+				err = telemetry.Default.SetModeAsOf(req, asof)
+			}
 			gotMode, gotTime = telemetry.Default.Mode()
 		})
 		if m.viol != nil {
@@ -853,6 +863,27 @@ func (m *machine) checkLiveness(hist *[]string) {
 		return
 	}
 	today := refcal.Date(refcal.DayOfUnix(s.NowT().Unix()))
+	if m.uplUnusable {
+		n200 := map[string]int{}
+		var weeks []string
+		for _, r := range s.Requests[m.cleanSeq:] {
+			if r.Status == 200 {
+				w := r.URL[strings.LastIndex(r.URL, "/")+1:]
+				if n200[w] == 0 {
+					weeks = append(weeks, w)
+				}
+				n200[w]++
+			}
+		}
+		sort.Strings(weeks)
+		for _, w := range weeks {
+			if n200[w] > 1 {
+				m.fail("acknowledged-not-once", "nothing crashed, the upload directory is unusable, and week %s was acknowledged to a client %d times", w, n200[w])
+				return
+			}
+		}
+		return
+	}
 	ents, _ := os.ReadDir(m.loc)
 	for _, e := range ents {
 		n := e.Name()
